@@ -71,14 +71,45 @@ def _jsonable(x):
 def sample_inputs(k, rng, tries=200):
     """a random admissible input of contract k (numeric requires hold)"""
     for _ in range(tries):
-        vals = [pt.sample(rng) for _, pt in k.signature]
-        try:
-            ok = all(bool(T.And(cond)) if not isinstance(cond, bool) else cond
-                     for _, cond in k.requires(*[_numview(pt, v) for (_, pt), v in zip(k.signature, vals)]))
-        except (ZeroDivisionError, ValueError, OverflowError):
-            ok = False
-        if ok:
+        vals = None
+        if hasattr(k, 'special_samples') and rng.random() < 0.3:
+            vals = k.special_samples(rng)        # inputs built at the boundaries the contract distinguishes
+        if vals is None:
+            vals = [pt.sample(rng) for _, pt in k.signature]
+        if _admissible(k, vals):
             return vals
+    return None
+
+
+def _admissible(k, vals):
+    try:
+        if hasattr(k, 'numeric_ok') and not k.numeric_ok(*vals):
+            return False          # admissible, but too ill-conditioned for a comparison in doubles (the symbolic contract covers it)
+        return all(bool(T.And(cond)) if not isinstance(cond, bool) else cond
+                   for _, cond in k.requires(*[_numview(pt, v) for (_, pt), v in zip(k.signature, vals)]))
+    except (ZeroDivisionError, ValueError, OverflowError):
+        return False
+
+
+def neighbour_inputs(k, prev, rng):
+    """an admissible input next to the previous one: every scalar real argument is kept, nudged by a relative
+    1e-9..1e-5, or drawn afresh; everything else is kept.  Successive near-identical calls are what a stale cache or a
+    tolerance-based shortcut needs in order to show."""
+    import copy
+    vals = copy.deepcopy(prev)
+    changed = False
+    for i, (nm, pt) in enumerate(k.signature):
+        if isinstance(pt, (E.Real, E.Angle)) and isinstance(vals[i], float):
+            r = rng.random()
+            if r < 0.4:
+                continue
+            if r < 0.8:
+                vals[i] = vals[i] * (1 + rng.choice([-1, 1]) * rng.choice([1e-9, 1e-7, 3e-6, 1e-5])) + rng.choice([0.0, 1e-9, -1e-9])
+            else:
+                vals[i] = pt.sample(rng)
+            changed = True
+    if changed and _admissible(k, vals):
+        return vals
     return None
 
 
@@ -100,6 +131,25 @@ def native_args(k, vals):
         act = k.actuals(*vals)
         return [np.array(a, float) if isinstance(a, list) and a and isinstance(a[0], list) else a for a in act]
     return [pt.native(v) for (_, pt), v in zip(k.signature, vals)]
+
+
+def vary_dtype(args, rng):
+    """the same values in another representation a caller may legitimately use: integral floats as Python ints,
+    all-integral float64 arrays as integer arrays, float64 arrays rounded to float32 only where that is exact.
+    Values are unchanged, so every contract clause must still hold."""
+    import numpy as np
+    out = []
+    for a in args:
+        if isinstance(a, float) and a == int(a) and abs(a) < 2 ** 31 and rng.random() < 0.5:
+            a = int(a)
+        elif isinstance(a, np.ndarray) and a.dtype == np.float64 and a.size and np.all(a == np.round(a)) and np.abs(a).max() < 2 ** 31 \
+                and rng.random() < 0.5:
+            a = a.astype(int)
+        elif isinstance(a, np.ndarray) and a.dtype == np.float64 and a.size and np.all(a.astype(np.float32).astype(np.float64) == a) \
+                and rng.random() < 0.3:
+            a = a.astype(np.float32)
+        out.append(a)
+    return out
 
 
 def _flatnum(x):
@@ -190,11 +240,17 @@ class FuncUnit(Unit):
         samples = []
         import xfab
         for _ in range(n):
-            vals = sample_inputs(k, rng)
+            vals = None
+            if samples and rng.random() < 0.25:
+                vals = neighbour_inputs(k, samples[-1], rng)
+            if vals is None:
+                vals = sample_inputs(k, rng)
             if vals is None:
                 break
             samples.append(vals)
             args = native_args(k, vals) if f is not None else None
+            if args is not None:
+                args = vary_dtype(args, rng)
             import copy as _copy
             before = _copy.deepcopy(args) if args is not None else None
             xfab.CHECKS.activated = self.checks_activated
@@ -415,6 +471,7 @@ class BoundedUnit(Unit):
         return 'bounded.' + self.name
 
     def run(self, tier, seed):
+        from .frameguard import FrameViolation
         n = self.nq if tier == 'quick' else self.nt
         rng = random.Random(seed)
         fails = []
@@ -423,6 +480,8 @@ class BoundedUnit(Unit):
         for i in range(n):
             try:
                 r = self.fn(rng)
+            except FrameViolation as e:
+                r = {'frame_violation': e.what, 'function': e.function, 'detail': e.detail, 'sample_index': i, 'seed': seed}
             except Exception as e:
                 # an exception raised by (or below) the code under test on an input the statement covers is a failing
                 # sample; one raised by the checker's own code is a checker error
@@ -447,8 +506,15 @@ class BoundedUnit(Unit):
 def _run_unit(args):
     unit, tier, seed = args
     t0 = time.time()
+    from .frameguard import FrameViolation
     try:
         r = unit.run(tier, seed)
+    except FrameViolation as e:
+        r = {'unit': unit.label(), 'functions': [], 'obligations': [
+            {'name': 'frame.%s.%s' % (e.function, e.what.replace(' ', '_')), 'status': 'refuted', 'kind': 'ground', 'backend': 'native frame guard',
+             'seconds': 0, 'detail': str(e), 'model': {'detail': e.detail}, 'path': '',
+             'ground_witness': {'function': e.function, 'what': e.what, 'detail': e.detail, 'raised_in_unit': unit.label()}}],
+             'notes': [], 'validation': None, 'native': None}
     except Exception as e:
         r = {'unit': unit.label(), 'functions': [], 'obligations': [
             {'name': unit.label() + '.checker', 'status': 'error', 'kind': 'engine', 'backend': '', 'seconds': 0,
@@ -514,6 +580,14 @@ def run_property(prop, units, tier, seed, level='proof', assumptions=(), trusted
                  design_ref='', checker_cmd=None, write_baseline=False, extra_cov=None, procs=None):
     t0 = time.time()
     procs = procs or int(os.environ.get('PYVC_PROCS', '16'))
+    from . import frameguard
+    frameguard.install()
+    only = os.environ.get('PYVC_ONLY')
+    if only:
+        # development aid: run the units whose label matches; such a run writes no evidence and no baseline
+        units = [u for u in units if re.search(only, u.label())]
+        os.environ['VERIF_NO_EVIDENCE'] = '1'
+        write_baseline = False
     # phase A (this process): symbolic execution of every unit -> obligations as z3 objects
     results = [_run_unit((u, tier, seed + i)) for i, u in enumerate(units)]
     if os.environ.get('PYVC_VERBOSE'):
